@@ -79,12 +79,18 @@ def run(chk):
         def go_nostep(kind=kind):
             s = S(kind)
             new = s.step_false()
-            inc = merge_cond(Pred.compare(i, K('start_iter'), '<='), 0, 1)
-            e = lift(K('since')) + lift(inc)
-            if lift(new.fields['rar_iter_from_last_sampling']) != e:
-                raise Violation("period counter without a step", str(new.fields['rar_iter_from_last_sampling']), str(e))
+            # the counter must be frozen before start_iter and count every iteration after it; at i == start_iter itself a
+            # non-step can only be caused by a full store (R1 + R6), after which no step is ever possible again, so both
+            # `i <= start_iter` and `i < start_iter` are accepted as the freeze condition
+            got = lift(new.fields['rar_iter_from_last_sampling'])
+            es = []
+            for op in ('<=', '<'):
+                inc = merge_cond(Pred.compare(i, K('start_iter'), op), 0, 1)
+                es.append(lift(K('since')) + lift(inc))
+            if got not in es:
+                raise Violation("period counter without a step", str(got), f"{es[0]} (frozen during the burn-in, + 1 per iteration afterwards)")
             unchanged_except(new, s.data, {'rar_iter_from_last_sampling'}, "no step")
-            return f"period counter = {e}; nothing else changes"
+            return f"period counter = {got}; nothing else changes"
         chk.run("C16.R2", f"{RAR}:_rar_step_init.rar_step_false", {"generator": kind}, go_nostep, construct=f"no-step counters[{kind}]")
 
         def go_act(kind=kind):
@@ -144,10 +150,11 @@ def run(chk):
         ok = is_sym(p, 'at_set', 3) and p.args[1] == ('slice', None, fz(n_start), None)
         if ok:
             base, _, val = p.args
+            from ._rar_common import nonzero_value
             ok = isinstance(base, tuple) and base[0] == 'AT' and base[1] == ('n',) and all(lift(e).is_zero() for e in base[2]) \
-                and (lift(val) * lift(n_start)) == 1
+                and nonzero_value(val)
         if not ok:
-            raise Violation("initial mask", str(p)[:200], "zeros(n) with the first n_start entries set to 1 / n_start")
+            raise Violation("initial mask", str(p)[:200], "zeros(n) with exactly the first n_start entries set to a non-zero probability")
         if lift(since) != lift(K('update_every')) - 1:
             raise Violation("initial period counter", str(since), "update_every - 1 (first step at start_iter)")
         if lift(J) != 0:
